@@ -147,7 +147,14 @@ func histories(thorough bool) []*history {
 		&history{Name: "R1-stream-eager", Kind: "stream", Steps: strings.Fields("init w w f gc w f gc m gc")},
 		&history{Name: "R2-stream-interleaved", Kind: "stream", Steps: strings.Fields("init w w fb w fe gc f gc m gc")},
 	)
+	// and on the real trace tsTable with one attached index (tracetable.go)
+	hs = append(hs,
+		&history{Name: "T1-trace-eager", Kind: "trace", Steps: strings.Fields("init w w f gc w f gc m gc")},
+		&history{Name: "T1-trace-late", Kind: "trace", Queued: true, Steps: strings.Fields("init w w f gc w f gc m gc drain")},
+		&history{Name: "T2-trace-interleaved", Kind: "trace", Steps: strings.Fields("init w w fb w fe gc f gc m gc")},
+	)
 	if thorough {
+		hs = append(hs, generated("trace", "TG", 5, "wfmpi", true)...)
 		hs = append(hs, &history{Name: "R1-stream-late", Kind: "stream", Queued: true, Steps: strings.Fields("init w w f gc w f gc m gc drain")})
 		hs = append(hs, generated("sidx", "XG", 5, "wfmpi", true)...)
 		hs = append(hs, generated("stream", "RG", 5, "wfmpi", true)...)
